@@ -32,6 +32,10 @@ AlgoVerdict(ev) ==
 
 Verdict(ev) ==
     CASE ev.e = "Algo"     -> AlgoVerdict(ev)
+      \* image equality = same dimensions and no differing pixel
+      [] ev.e = "ImgEq"    -> LET exp == (ev.w1 = ev.w2 /\ ev.h1 = ev.h2 /\ ev.p1 = ev.p2) IN
+                              IF ev.eq = exp /\ ev.ne = ~exp THEN {}
+                              ELSE {V("P_ImageEquality", "None", ev.type, [a |-> <<ev.w1, ev.h1>>, b |-> <<ev.w2, ev.h2>>, variant |-> ev.variant, eq |-> ev.eq, ne |-> ev.ne])}
       [] ev.e = "Compiles" -> IF ev.ok THEN {} ELSE {V("P_Total", "does-not-compile", ev.case, ev.msg)}
       [] ev.e = "Fault"    -> {V("P_NoFault", "None", "driver", ev.kind)}
       [] ev.e = "End"      -> {}
@@ -41,7 +45,7 @@ Init == l = 1 /\ bad = <<>> /\ drift = <<>> /\ nchk = 0
 Step == /\ l <= NTr
         /\ bad' = MergeBad(bad, l, Verdict(Tr[l]))
         /\ drift' = drift
-        /\ nchk' = nchk + (IF Tr[l].e \in {"Algo", "Compiles"} THEN 1 ELSE 0)
+        /\ nchk' = nchk + (IF Tr[l].e \in {"Algo", "Compiles", "ImgEq"} THEN 1 ELSE 0)
         /\ l' = l + 1
 Fin  == /\ l = NTr + 1 /\ WriteOut(bad, drift, nchk) /\ l' = l + 1 /\ UNCHANGED <<bad, drift, nchk>>
 Next == Step \/ Fin
